@@ -55,7 +55,7 @@ pub const MIX_NAMES: [&str; 28] = [
 ];
 pub const MIX_FROM: u64 = 40;
 /// mix workloads: (kinds of the threads, bytes per call)
-pub const MIXES: [(&[u64], usize, usize); 11] = [
+pub const MIXES: [(&[u64], usize, usize); 16] = [
     (&[40, 41, 42, 43], 1100, 1),
     (&[44, 45, 46, 47], 1100, 1),
     (&[48, 49, 50, 51], 2100, 1),
@@ -71,8 +71,15 @@ pub const MIXES: [(&[u64], usize, usize); 11] = [
     // a parameter with fewer ways than there are values in use is recycled all the time, under the readers' feet)
     (&[54, 56, 57, 58, 59, 64], 20, 8),
     (&[53, 55, 65, 66, 67], 20, 8),
+    // the same for the short kinds (< 40: the call's arguments come from the whole tag): every variant of one family at once,
+    // eight short calls per thread
+    (&[7, 19, 20, 23, 8, 21], 0, 8),
+    (&[5, 6, 15, 16], 0, 8),
+    (&[4, 13, 17, 18], 0, 6),
+    (&[0, 1, 2, 3], 0, 6),
+    (&[10, 24, 25, 9, 27], 0, 6),
 ];
-pub const NMIX: u64 = 11;
+pub const NMIX: u64 = 16;
 
 fn op_name(k: u64) -> &'static str {
     if k >= MIX_FROM {
@@ -322,7 +329,7 @@ fn workload(base: u64, w: u64) -> Vec<Vec<(u64, u64)>> {
         // "mix" workloads: every thread makes one long call on ANOTHER variant of the same family (Jh224 | Jh256 | Jh384 | Jh512 ...):
         // whatever the variants of a crate share per process (scratch areas, caches keyed by a parameter) is used by all at once
         let (kinds, len, reps) = MIXES[((w - 2 * NOPS - 62) % NMIX) as usize];
-        return kinds.iter().map(|k| (0..reps).map(|_| (*k, ((len as u64) << 44) | (splitmix(&mut s) & ((1 << 44) - 1)))).collect()).collect();
+        return kinds.iter().map(|k| (0..reps).map(|_| (*k, if *k >= MIX_FROM { ((len as u64) << 44) | (splitmix(&mut s) & ((1 << 44) - 1)) } else { splitmix(&mut s) })).collect()).collect();
     }
     if w >= 2 * NOPS + 31 {
         // "wrap" workloads: the hammer below, after 246 (or 65526) constructions of the same type on the main thread (run mode does
